@@ -21,6 +21,7 @@ type ExecMode struct {
 	ArgFaults      bool     // failing / panicking input unmarshaler in arguments
 	Transports     []string // also run every k-th scenario over these real transports ("tp:sse", "tp:mixed", "tp:post") and validate the payloads parsed off the wire like the executor's
 	TransportEvery int
+	Sentinel       bool // a third of the planned resolver errors return ONE shared package-level *gqlerror.Error value
 	HTTP           bool // run through handler.Server + POST transport; allows marshal-time panics (Boom = "panic")
 	Mutations      bool // include mutation operations
 	Subs           bool // subscription operations only (GqlSubTrace)
@@ -126,6 +127,12 @@ func derivePlan(s *SchemaJ, base *ur.Result, r *rand.Rand, m ExecMode, intensity
 					vb = "Boom!"
 				}
 				plan[ev.P] = ur.Outcome{K: "val", V: valFor(vb, r)}
+			case "err":
+				o := ur.Outcome{K: "err"}
+				if m.Sentinel && r.Intn(3) == 0 {
+					o.V = "sentinel"
+				}
+				plan[ev.P] = o
 			default:
 				plan[ev.P] = ur.Outcome{K: k}
 			}
